@@ -36,11 +36,19 @@ type Validator struct {
 
 // validationContext holds current validation context.
 type validationContext struct {
-	function       *Function
-	functionName   string
-	loopDepth      int
-	inContinuing   bool
-	expressionUsed map[ExpressionHandle]bool
+	function     *Function
+	functionName string
+	loopDepth    int
+	inContinuing bool
+	// switchDepth counts the switch statements enclosing the current statement
+	// within the innermost loop body or continuing block (a break there leaves
+	// the switch). It is reset when a loop is entered.
+	switchDepth int
+	// continuingOfLoop is true while validating statements whose innermost
+	// enclosing loop construct is that loop's continuing block, so that a
+	// break or continue would leave the continuing block.
+	continuingOfLoop bool
+	expressionUsed   map[ExpressionHandle]bool
 }
 
 // Validate checks the IR module for correctness.
@@ -534,6 +542,7 @@ func (v *Validator) validateStatement(index int, stmt *Statement) {
 			v.addErrorInStatement(index, fmt.Sprintf("selector expression %d does not exist", kind.Selector))
 		}
 		hasDefault := false
+		v.context.switchDepth++
 		for _, c := range kind.Cases {
 			if _, ok := c.Value.(SwitchValueDefault); ok {
 				if hasDefault {
@@ -543,6 +552,7 @@ func (v *Validator) validateStatement(index int, stmt *Statement) {
 			}
 			v.validateBlock(c.Body)
 		}
+		v.context.switchDepth--
 		if !hasDefault {
 			v.addErrorInStatement(index, "switch missing default case")
 		}
@@ -550,13 +560,22 @@ func (v *Validator) validateStatement(index int, stmt *Statement) {
 	case StmtLoop:
 		oldDepth := v.context.loopDepth
 		v.context.loopDepth++
+		oldSwitchDepth := v.context.switchDepth
+		oldContinuingOfLoop := v.context.continuingOfLoop
+		v.context.switchDepth = 0
 
+		// break/continue in the body target this loop, even when the loop
+		// itself is nested in the continuing block of an outer loop.
+		v.context.continuingOfLoop = false
 		v.validateBlock(kind.Body)
 
 		oldContinuing := v.context.inContinuing
 		v.context.inContinuing = true
+		v.context.continuingOfLoop = true
 		v.validateBlock(kind.Continuing)
 		v.context.inContinuing = oldContinuing
+		v.context.continuingOfLoop = oldContinuingOfLoop
+		v.context.switchDepth = oldSwitchDepth
 
 		if kind.BreakIf != nil {
 			if !v.isValidExpressionHandle(*kind.BreakIf) {
@@ -567,18 +586,21 @@ func (v *Validator) validateStatement(index int, stmt *Statement) {
 		v.context.loopDepth = oldDepth
 
 	case StmtBreak:
-		if v.context.loopDepth == 0 {
-			v.addErrorInStatement(index, "break outside of loop")
-		}
-		if v.context.inContinuing {
-			v.addErrorInStatement(index, "break in continuing block")
+		// A break inside a switch leaves the switch, wherever the switch is.
+		if v.context.switchDepth == 0 {
+			if v.context.loopDepth == 0 {
+				v.addErrorInStatement(index, "break outside of loop")
+			}
+			if v.context.continuingOfLoop {
+				v.addErrorInStatement(index, "break in continuing block")
+			}
 		}
 
 	case StmtContinue:
 		if v.context.loopDepth == 0 {
 			v.addErrorInStatement(index, "continue outside of loop")
 		}
-		if v.context.inContinuing {
+		if v.context.continuingOfLoop {
 			v.addErrorInStatement(index, "continue in continuing block")
 		}
 
